@@ -8,57 +8,57 @@ open Pya Pya.C11
 /-! ## A. the annotation visitor -/
 
 mutual
-theorem annVisit_ok (sup : String → Bool) : ∀ e : AExpr, AExpr.hasUnsupported sup e = false →
-    ∃ c, annVisit sup e = .ok c
-  | .name c, h => by simp [AExpr.hasUnsupported] at h; exact ⟨c, by simp [annVisit, h]⟩
-  | .const, h => by simp [AExpr.hasUnsupported] at h; exact ⟨none, by simp [annVisit, h]⟩
+theorem oldAnnVisit_ok (sup : String → Bool) : ∀ e : AExpr, AExpr.hasUnsupported sup e = false →
+    ∃ c, oldAnnVisit sup e = .ok c
+  | .name c, h => by simp [AExpr.hasUnsupported] at h; exact ⟨c, by simp [oldAnnVisit, h]⟩
+  | .const, h => by simp [AExpr.hasUnsupported] at h; exact ⟨none, by simp [oldAnnVisit, h]⟩
   | .attr v c, h => by
     simp [AExpr.hasUnsupported] at h
-    obtain ⟨c', hc'⟩ := annVisit_ok sup v h.2
-    exact ⟨c, by simp [annVisit, h.1, hc']⟩
+    obtain ⟨c', hc'⟩ := oldAnnVisit_ok sup v h.2
+    exact ⟨c, by simp [oldAnnVisit, h.1, hc']⟩
   | .sub v s, h => by
     simp [AExpr.hasUnsupported] at h
-    obtain ⟨c1, h1⟩ := annVisit_ok sup v h.1.2
-    obtain ⟨c2, h2⟩ := annVisit_ok sup s h.2
-    exact ⟨none, by simp [annVisit, h.1.1, h1, h2]⟩
+    obtain ⟨c1, h1⟩ := oldAnnVisit_ok sup v h.1.2
+    obtain ⟨c2, h2⟩ := oldAnnVisit_ok sup s h.2
+    exact ⟨none, by simp [oldAnnVisit, h.1.1, h1, h2]⟩
   | .tuple es, h => by
     simp [AExpr.hasUnsupported] at h
-    exact ⟨none, by simp [annVisit, h.1, annVisitL_ok sup es h.2]⟩
+    exact ⟨none, by simp [oldAnnVisit, h.1, oldAnnVisitL_ok sup es h.2]⟩
   | .list es, h => by
     simp [AExpr.hasUnsupported] at h
-    exact ⟨none, by simp [annVisit, h.1, annVisitL_ok sup es h.2]⟩
+    exact ⟨none, by simp [oldAnnVisit, h.1, oldAnnVisitL_ok sup es h.2]⟩
   | .set es, h => by
     simp [AExpr.hasUnsupported] at h
-    exact ⟨none, by simp [annVisit, h.1, annVisitL_ok sup es h.2]⟩
+    exact ⟨none, by simp [oldAnnVisit, h.1, oldAnnVisitL_ok sup es h.2]⟩
   | .dict ks vs, h => by
     simp [AExpr.hasUnsupported] at h
-    exact ⟨none, by simp [annVisit, h.1.1, annVisitL_ok sup ks h.1.2, annVisitL_ok sup vs h.2]⟩
+    exact ⟨none, by simp [oldAnnVisit, h.1.1, oldAnnVisitL_ok sup ks h.1.2, oldAnnVisitL_ok sup vs h.2]⟩
   | .binop b l r, h => by
     simp [AExpr.hasUnsupported] at h
-    obtain ⟨c1, h1⟩ := annVisit_ok sup l h.1.2
-    obtain ⟨c2, h2⟩ := annVisit_ok sup r h.2
-    exact ⟨none, by cases b <;> simp [annVisit, h.1.1, h1, h2]⟩
+    obtain ⟨c1, h1⟩ := oldAnnVisit_ok sup l h.1.2
+    obtain ⟨c2, h2⟩ := oldAnnVisit_ok sup r h.2
+    exact ⟨none, by cases b <;> simp [oldAnnVisit, h.1.1, h1, h2]⟩
   | .unary b e, h => by
     simp [AExpr.hasUnsupported] at h
-    obtain ⟨c1, h1⟩ := annVisit_ok sup e h.2
-    exact ⟨none, by cases b <;> simp [annVisit, h.1, h1]⟩
+    obtain ⟨c1, h1⟩ := oldAnnVisit_ok sup e h.2
+    exact ⟨none, by cases b <;> simp [oldAnnVisit, h.1, h1]⟩
   | .call f as ks, h => by
     simp [AExpr.hasUnsupported] at h
-    obtain ⟨c1, h1⟩ := annVisit_ok sup f h.1.1.2
-    have ha := annVisitL_ok sup as h.1.2
-    have hk := annVisitL_ok sup ks h.2
+    obtain ⟨c1, h1⟩ := oldAnnVisit_ok sup f h.1.1.2
+    have ha := oldAnnVisitL_ok sup as h.1.2
+    have hk := oldAnnVisitL_ok sup ks h.2
     refine ⟨none, ?_⟩
     rcases c1 with _ | c1
-    · simp [annVisit, h.1.1.1, h1]
-    · cases c1 <;> simp [annVisit, h.1.1.1, h1, ha, hk]
-  | .other k, h => by simp [AExpr.hasUnsupported] at h; exact ⟨none, by simp [annVisit, h]⟩
-theorem annVisitL_ok (sup : String → Bool) : ∀ es : List AExpr, AExpr.hasUnsupportedL sup es = false →
-    annVisitL sup es = none
-  | [], _ => by simp [annVisitL]
+    · simp [oldAnnVisit, h.1.1.1, h1]
+    · cases c1 <;> simp [oldAnnVisit, h.1.1.1, h1, ha, hk]
+  | .other k, h => by simp [AExpr.hasUnsupported] at h; exact ⟨none, by simp [oldAnnVisit, h]⟩
+theorem oldAnnVisitL_ok (sup : String → Bool) : ∀ es : List AExpr, AExpr.hasUnsupportedL sup es = false →
+    oldAnnVisitL sup es = none
+  | [], _ => by simp [oldAnnVisitL]
   | e :: es, h => by
     simp [AExpr.hasUnsupportedL] at h
-    obtain ⟨c, hc⟩ := annVisit_ok sup e h.1
-    simp [annVisitL, hc, annVisitL_ok sup es h.2]
+    obtain ⟨c, hc⟩ := oldAnnVisit_ok sup e h.1
+    simp [oldAnnVisitL, hc, oldAnnVisitL_ok sup es h.2]
 end
 
 /-- a visit either returns or raises -/
@@ -68,7 +68,158 @@ theorem Res.cases' (r : Res) : (∃ k, r = .raise k) ∨ (∃ c, r = .ok c) := b
   | ok c => exact .inr ⟨c, rfl⟩
 
 mutual
-theorem annVisit_raise (sup : String → Bool) : ∀ (e : AExpr) (k : String), annVisit sup e = .raise k →
+theorem oldAnnVisit_raise (sup : String → Bool) : ∀ (e : AExpr) (k : String), oldAnnVisit sup e = .raise k →
+    sup k = false ∧ k ∈ AExpr.kinds e
+  | .name c, k, h => by
+    by_cases hs : sup "Name" = true <;> simp [oldAnnVisit, hs] at h
+    subst h; simp [AExpr.kinds]; simpa using hs
+  | .const, k, h => by
+    by_cases hs : sup "Constant" = true <;> simp [oldAnnVisit, hs] at h
+    subst h; simp [AExpr.kinds]; simpa using hs
+  | .attr v c, k, h => by
+    by_cases hs : sup "Attribute" = true
+    · simp [oldAnnVisit, hs] at h
+      rcases Res.cases' (oldAnnVisit sup v) with ⟨k', hk⟩ | ⟨c', hk⟩ <;> simp [hk] at h
+      subst h
+      have := oldAnnVisit_raise sup v k' hk
+      exact ⟨this.1, by simp [AExpr.kinds, this.2]⟩
+    · simp [oldAnnVisit, hs] at h; subst h; simp [AExpr.kinds]; simpa using hs
+  | .sub v s, k, h => by
+    by_cases hs : sup "Subscript" = true
+    · simp [oldAnnVisit, hs] at h
+      rcases Res.cases' (oldAnnVisit sup v) with ⟨k', hk⟩ | ⟨c', hk⟩ <;> simp [hk] at h
+      · subst h
+        have := oldAnnVisit_raise sup v k' hk
+        exact ⟨this.1, by simp [AExpr.kinds, this.2]⟩
+      · rcases Res.cases' (oldAnnVisit sup s) with ⟨k', hk2⟩ | ⟨c', hk2⟩ <;> simp [hk2] at h
+        subst h
+        have := oldAnnVisit_raise sup s k' hk2
+        exact ⟨this.1, by simp [AExpr.kinds, this.2]⟩
+    · simp [oldAnnVisit, hs] at h; subst h; simp [AExpr.kinds]; simpa using hs
+  | .tuple es, k, h => by
+    by_cases hs : sup "Tuple" = true
+    · simp [oldAnnVisit, hs] at h
+      cases hl : oldAnnVisitL sup es with
+      | none => simp [hl] at h
+      | some k' =>
+        simp [hl] at h; subst h
+        have := oldAnnVisitL_raise sup es k' hl
+        exact ⟨this.1, by simp [AExpr.kinds, this.2]⟩
+    · simp [oldAnnVisit, hs] at h; subst h; simp [AExpr.kinds]; simpa using hs
+  | .list es, k, h => by
+    by_cases hs : sup "List" = true
+    · simp [oldAnnVisit, hs] at h
+      cases hl : oldAnnVisitL sup es with
+      | none => simp [hl] at h
+      | some k' =>
+        simp [hl] at h; subst h
+        have := oldAnnVisitL_raise sup es k' hl
+        exact ⟨this.1, by simp [AExpr.kinds, this.2]⟩
+    · simp [oldAnnVisit, hs] at h; subst h; simp [AExpr.kinds]; simpa using hs
+  | .set es, k, h => by
+    by_cases hs : sup "Set" = true
+    · simp [oldAnnVisit, hs] at h
+      cases hl : oldAnnVisitL sup es with
+      | none => simp [hl] at h
+      | some k' =>
+        simp [hl] at h; subst h
+        have := oldAnnVisitL_raise sup es k' hl
+        exact ⟨this.1, by simp [AExpr.kinds, this.2]⟩
+    · simp [oldAnnVisit, hs] at h; subst h; simp [AExpr.kinds]; simpa using hs
+  | .dict ks vs, k, h => by
+    by_cases hs : sup "Dict" = true
+    · simp [oldAnnVisit, hs] at h
+      cases hl : oldAnnVisitL sup ks with
+      | some k' =>
+        simp [hl] at h; subst h
+        have := oldAnnVisitL_raise sup ks k' hl
+        exact ⟨this.1, by simp [AExpr.kinds, this.2]⟩
+      | none =>
+        simp [hl] at h
+        cases hv : oldAnnVisitL sup vs with
+        | none => simp [hv] at h
+        | some k' =>
+          simp [hv] at h; subst h
+          have := oldAnnVisitL_raise sup vs k' hv
+          exact ⟨this.1, by simp [AExpr.kinds, this.2]⟩
+    · simp [oldAnnVisit, hs] at h; subst h; simp [AExpr.kinds]; simpa using hs
+  | .binop b l r, k, h => by
+    by_cases hs : sup "BinOp" = true
+    · cases b
+      · simp [oldAnnVisit, hs] at h
+      · simp [oldAnnVisit, hs] at h
+        rcases Res.cases' (oldAnnVisit sup l) with ⟨k', hk⟩ | ⟨c', hk⟩ <;> simp [hk] at h
+        · subst h
+          have := oldAnnVisit_raise sup l k' hk
+          exact ⟨this.1, by simp [AExpr.kinds, this.2]⟩
+        · rcases Res.cases' (oldAnnVisit sup r) with ⟨k', hk2⟩ | ⟨c', hk2⟩ <;> simp [hk2] at h
+          subst h
+          have := oldAnnVisit_raise sup r k' hk2
+          exact ⟨this.1, by simp [AExpr.kinds, this.2]⟩
+    · simp [oldAnnVisit, hs] at h; subst h; simp [AExpr.kinds]; simpa using hs
+  | .unary b e, k, h => by
+    by_cases hs : sup "UnaryOp" = true
+    · cases b
+      · simp [oldAnnVisit, hs] at h
+      · simp [oldAnnVisit, hs] at h
+        rcases Res.cases' (oldAnnVisit sup e) with ⟨k', hk⟩ | ⟨c', hk⟩ <;> simp [hk] at h
+        subst h
+        have := oldAnnVisit_raise sup e k' hk
+        exact ⟨this.1, by simp [AExpr.kinds, this.2]⟩
+    · simp [oldAnnVisit, hs] at h; subst h; simp [AExpr.kinds]; simpa using hs
+  | .call f as ks, k, h => by
+    by_cases hs : sup "Call" = true
+    · have key : ∀ k', (oldAnnVisitL sup as = some k' ∨ oldAnnVisitL sup ks = some k') →
+          sup k' = false ∧ k' ∈ AExpr.kinds (.call f as ks) := by
+        intro k' h'
+        rcases h' with h' | h'
+        · have := oldAnnVisitL_raise sup as k' h'
+          exact ⟨this.1, by simp [AExpr.kinds, this.2]⟩
+        · have := oldAnnVisitL_raise sup ks k' h'
+          exact ⟨this.1, by simp [AExpr.kinds, this.2]⟩
+      rcases Res.cases' (oldAnnVisit sup f) with ⟨k', hk⟩ | ⟨c', hk⟩
+      · simp [oldAnnVisit, hs, hk] at h; subst h
+        have := oldAnnVisit_raise sup f k' hk
+        exact ⟨this.1, by simp [AExpr.kinds, this.2]⟩
+      · rcases c' with _ | c'
+        · simp [oldAnnVisit, hs, hk] at h
+        · cases ha : oldAnnVisitL sup as with
+          | some k' =>
+            cases c' with
+            | deprecated =>
+              by_cases hke : ks = []
+              · simp [oldAnnVisit, hs, hk, ha, hke] at h; subst h; exact key _ (.inl ha)
+              · simp [oldAnnVisit, hs, hk, hke] at h
+            | newType => simp [oldAnnVisit, hs, hk, ha] at h; subst h; exact key _ (.inl ha)
+            | typeVar => simp [oldAnnVisit, hs, hk, ha] at h; subst h; exact key _ (.inl ha)
+            | paramSpec => simp [oldAnnVisit, hs, hk, ha] at h; subst h; exact key _ (.inl ha)
+          | none =>
+            cases hk2 : oldAnnVisitL sup ks with
+            | some k' =>
+              cases c' <;> simp [oldAnnVisit, hs, hk, ha, hk2] at h
+              all_goals (subst h; exact key _ (.inr hk2))
+            | none => cases c' <;> simp [oldAnnVisit, hs, hk, ha, hk2] at h
+    · simp [oldAnnVisit, hs] at h; subst h; simp [AExpr.kinds]; simpa using hs
+  | .other k0, k, h => by
+    by_cases hs : sup k0 = true <;> simp [oldAnnVisit, hs] at h
+    subst h; simp [AExpr.kinds]; simpa using hs
+theorem oldAnnVisitL_raise (sup : String → Bool) : ∀ (es : List AExpr) (k : String), oldAnnVisitL sup es = some k →
+    sup k = false ∧ k ∈ AExpr.kindsL es
+  | [], k, h => by simp [oldAnnVisitL] at h
+  | e :: es, k, h => by
+    rcases Res.cases' (oldAnnVisit sup e) with ⟨k', hk⟩ | ⟨c', hk⟩
+    · simp [oldAnnVisitL, hk] at h; subst h
+      have := oldAnnVisit_raise sup e k' hk
+      exact ⟨this.1, by simp [AExpr.kindsL, this.2]⟩
+    · simp [oldAnnVisitL, hk] at h
+      have := oldAnnVisitL_raise sup es k h
+      exact ⟨this.1, by simp [AExpr.kindsL, this.2]⟩
+end
+
+/-! ## A'. the visitor since fix 9c1e869 (reports instead of raising) -/
+
+mutual
+theorem annVisit_errors (sup : String → Bool) : ∀ (e : AExpr) (k : String), k ∈ (annVisit sup e).1 →
     sup k = false ∧ k ∈ AExpr.kinds e
   | .name c, k, h => by
     by_cases hs : sup "Name" = true <;> simp [annVisit, hs] at h
@@ -79,142 +230,234 @@ theorem annVisit_raise (sup : String → Bool) : ∀ (e : AExpr) (k : String), a
   | .attr v c, k, h => by
     by_cases hs : sup "Attribute" = true
     · simp [annVisit, hs] at h
-      rcases Res.cases' (annVisit sup v) with ⟨k', hk⟩ | ⟨c', hk⟩ <;> simp [hk] at h
-      subst h
-      have := annVisit_raise sup v k' hk
+      have := annVisit_errors sup v k h
       exact ⟨this.1, by simp [AExpr.kinds, this.2]⟩
     · simp [annVisit, hs] at h; subst h; simp [AExpr.kinds]; simpa using hs
   | .sub v s, k, h => by
     by_cases hs : sup "Subscript" = true
     · simp [annVisit, hs] at h
-      rcases Res.cases' (annVisit sup v) with ⟨k', hk⟩ | ⟨c', hk⟩ <;> simp [hk] at h
-      · subst h
-        have := annVisit_raise sup v k' hk
-        exact ⟨this.1, by simp [AExpr.kinds, this.2]⟩
-      · rcases Res.cases' (annVisit sup s) with ⟨k', hk2⟩ | ⟨c', hk2⟩ <;> simp [hk2] at h
-        subst h
-        have := annVisit_raise sup s k' hk2
-        exact ⟨this.1, by simp [AExpr.kinds, this.2]⟩
+      rcases h with h | h
+      · have := annVisit_errors sup v k h; exact ⟨this.1, by simp [AExpr.kinds, this.2]⟩
+      · have := annVisit_errors sup s k h; exact ⟨this.1, by simp [AExpr.kinds, this.2]⟩
     · simp [annVisit, hs] at h; subst h; simp [AExpr.kinds]; simpa using hs
   | .tuple es, k, h => by
     by_cases hs : sup "Tuple" = true
     · simp [annVisit, hs] at h
-      cases hl : annVisitL sup es with
-      | none => simp [hl] at h
-      | some k' =>
-        simp [hl] at h; subst h
-        have := annVisitL_raise sup es k' hl
-        exact ⟨this.1, by simp [AExpr.kinds, this.2]⟩
+      have := annVisitL_errors sup es k h; exact ⟨this.1, by simp [AExpr.kinds, this.2]⟩
     · simp [annVisit, hs] at h; subst h; simp [AExpr.kinds]; simpa using hs
   | .list es, k, h => by
     by_cases hs : sup "List" = true
     · simp [annVisit, hs] at h
-      cases hl : annVisitL sup es with
-      | none => simp [hl] at h
-      | some k' =>
-        simp [hl] at h; subst h
-        have := annVisitL_raise sup es k' hl
-        exact ⟨this.1, by simp [AExpr.kinds, this.2]⟩
+      have := annVisitL_errors sup es k h; exact ⟨this.1, by simp [AExpr.kinds, this.2]⟩
     · simp [annVisit, hs] at h; subst h; simp [AExpr.kinds]; simpa using hs
   | .set es, k, h => by
     by_cases hs : sup "Set" = true
     · simp [annVisit, hs] at h
-      cases hl : annVisitL sup es with
-      | none => simp [hl] at h
-      | some k' =>
-        simp [hl] at h; subst h
-        have := annVisitL_raise sup es k' hl
-        exact ⟨this.1, by simp [AExpr.kinds, this.2]⟩
+      have := annVisitL_errors sup es k h; exact ⟨this.1, by simp [AExpr.kinds, this.2]⟩
     · simp [annVisit, hs] at h; subst h; simp [AExpr.kinds]; simpa using hs
   | .dict ks vs, k, h => by
     by_cases hs : sup "Dict" = true
     · simp [annVisit, hs] at h
-      cases hl : annVisitL sup ks with
-      | some k' =>
-        simp [hl] at h; subst h
-        have := annVisitL_raise sup ks k' hl
-        exact ⟨this.1, by simp [AExpr.kinds, this.2]⟩
-      | none =>
-        simp [hl] at h
-        cases hv : annVisitL sup vs with
-        | none => simp [hv] at h
-        | some k' =>
-          simp [hv] at h; subst h
-          have := annVisitL_raise sup vs k' hv
-          exact ⟨this.1, by simp [AExpr.kinds, this.2]⟩
+      rcases h with h | h
+      · have := annVisitL_errors sup ks k h; exact ⟨this.1, by simp [AExpr.kinds, this.2]⟩
+      · have := annVisitL_errors sup vs k h; exact ⟨this.1, by simp [AExpr.kinds, this.2]⟩
     · simp [annVisit, hs] at h; subst h; simp [AExpr.kinds]; simpa using hs
   | .binop b l r, k, h => by
     by_cases hs : sup "BinOp" = true
-    · cases b
-      · simp [annVisit, hs] at h
-      · simp [annVisit, hs] at h
-        rcases Res.cases' (annVisit sup l) with ⟨k', hk⟩ | ⟨c', hk⟩ <;> simp [hk] at h
-        · subst h
-          have := annVisit_raise sup l k' hk
-          exact ⟨this.1, by simp [AExpr.kinds, this.2]⟩
-        · rcases Res.cases' (annVisit sup r) with ⟨k', hk2⟩ | ⟨c', hk2⟩ <;> simp [hk2] at h
-          subst h
-          have := annVisit_raise sup r k' hk2
-          exact ⟨this.1, by simp [AExpr.kinds, this.2]⟩
+    · cases b <;> simp [annVisit, hs] at h
+      rcases h with h | h
+      · have := annVisit_errors sup l k h; exact ⟨this.1, by simp [AExpr.kinds, this.2]⟩
+      · have := annVisit_errors sup r k h; exact ⟨this.1, by simp [AExpr.kinds, this.2]⟩
     · simp [annVisit, hs] at h; subst h; simp [AExpr.kinds]; simpa using hs
   | .unary b e, k, h => by
     by_cases hs : sup "UnaryOp" = true
-    · cases b
-      · simp [annVisit, hs] at h
-      · simp [annVisit, hs] at h
-        rcases Res.cases' (annVisit sup e) with ⟨k', hk⟩ | ⟨c', hk⟩ <;> simp [hk] at h
-        subst h
-        have := annVisit_raise sup e k' hk
-        exact ⟨this.1, by simp [AExpr.kinds, this.2]⟩
+    · cases b <;> simp [annVisit, hs] at h
+      have := annVisit_errors sup e k h; exact ⟨this.1, by simp [AExpr.kinds, this.2]⟩
     · simp [annVisit, hs] at h; subst h; simp [AExpr.kinds]; simpa using hs
   | .call f as ks, k, h => by
     by_cases hs : sup "Call" = true
-    · have key : ∀ k', (annVisitL sup as = some k' ∨ annVisitL sup ks = some k') →
-          sup k' = false ∧ k' ∈ AExpr.kinds (.call f as ks) := by
-        intro k' h'
-        rcases h' with h' | h'
-        · have := annVisitL_raise sup as k' h'
-          exact ⟨this.1, by simp [AExpr.kinds, this.2]⟩
-        · have := annVisitL_raise sup ks k' h'
-          exact ⟨this.1, by simp [AExpr.kinds, this.2]⟩
-      rcases Res.cases' (annVisit sup f) with ⟨k', hk⟩ | ⟨c', hk⟩
-      · simp [annVisit, hs, hk] at h; subst h
-        have := annVisit_raise sup f k' hk
-        exact ⟨this.1, by simp [AExpr.kinds, this.2]⟩
-      · rcases c' with _ | c'
-        · simp [annVisit, hs, hk] at h
-        · cases ha : annVisitL sup as with
-          | some k' =>
-            cases c' with
-            | deprecated =>
-              by_cases hke : ks = []
-              · simp [annVisit, hs, hk, ha, hke] at h; subst h; exact key _ (.inl ha)
-              · simp [annVisit, hs, hk, hke] at h
-            | newType => simp [annVisit, hs, hk, ha] at h; subst h; exact key _ (.inl ha)
-            | typeVar => simp [annVisit, hs, hk, ha] at h; subst h; exact key _ (.inl ha)
-            | paramSpec => simp [annVisit, hs, hk, ha] at h; subst h; exact key _ (.inl ha)
-          | none =>
-            cases hk2 : annVisitL sup ks with
-            | some k' =>
-              cases c' <;> simp [annVisit, hs, hk, ha, hk2] at h
-              all_goals (subst h; exact key _ (.inr hk2))
-            | none => cases c' <;> simp [annVisit, hs, hk, ha, hk2] at h
+    · have hf : ∀ k', k' ∈ (annVisit sup f).1 → sup k' = false ∧ k' ∈ AExpr.kinds (.call f as ks) := fun k' h' => by
+        have := annVisit_errors sup f k' h'; exact ⟨this.1, by simp [AExpr.kinds, this.2]⟩
+      have ha : ∀ k', k' ∈ annVisitL sup as → sup k' = false ∧ k' ∈ AExpr.kinds (.call f as ks) := fun k' h' => by
+        have := annVisitL_errors sup as k' h'; exact ⟨this.1, by simp [AExpr.kinds, this.2]⟩
+      have hk : ∀ k', k' ∈ annVisitL sup ks → sup k' = false ∧ k' ∈ AExpr.kinds (.call f as ks) := fun k' h' => by
+        have := annVisitL_errors sup ks k' h'; exact ⟨this.1, by simp [AExpr.kinds, this.2]⟩
+      simp only [annVisit, hs, if_true] at h
+      rcases hv : annVisit sup f with ⟨ef, cf⟩
+      rw [hv] at h hf
+      rcases cf with _ | cf
+      · exact hf k h
+      · cases cf
+        case deprecated =>
+          by_cases hke : ks.isEmpty = true
+          · simp [hke] at h; rcases h with h | h
+            · exact hf k h
+            · exact ha k h
+          · simp [hke] at h; exact hf k h
+        all_goals
+          simp at h
+          rcases h with h | h | h
+          · exact hf k h
+          · exact ha k h
+          · exact hk k h
     · simp [annVisit, hs] at h; subst h; simp [AExpr.kinds]; simpa using hs
   | .other k0, k, h => by
     by_cases hs : sup k0 = true <;> simp [annVisit, hs] at h
     subst h; simp [AExpr.kinds]; simpa using hs
-theorem annVisitL_raise (sup : String → Bool) : ∀ (es : List AExpr) (k : String), annVisitL sup es = some k →
+theorem annVisitL_errors (sup : String → Bool) : ∀ (es : List AExpr) (k : String), k ∈ annVisitL sup es →
     sup k = false ∧ k ∈ AExpr.kindsL es
   | [], k, h => by simp [annVisitL] at h
   | e :: es, k, h => by
-    rcases Res.cases' (annVisit sup e) with ⟨k', hk⟩ | ⟨c', hk⟩
-    · simp [annVisitL, hk] at h; subst h
-      have := annVisit_raise sup e k' hk
-      exact ⟨this.1, by simp [AExpr.kindsL, this.2]⟩
-    · simp [annVisitL, hk] at h
-      have := annVisitL_raise sup es k h
-      exact ⟨this.1, by simp [AExpr.kindsL, this.2]⟩
+    simp [annVisitL] at h
+    rcases h with h | h
+    · have := annVisit_errors sup e k h; exact ⟨this.1, by simp [AExpr.kindsL, this.2]⟩
+    · have := annVisitL_errors sup es k h; exact ⟨this.1, by simp [AExpr.kindsL, this.2]⟩
 end
+
+
+/-- the old visitor's outcome, read off the new one: a raise is the first error now reported; a value
+comes back unchanged and without errors -/
+def agrees (o : Res) (n : List String × Option Ctor) : Prop :=
+  match o with
+  | .raise k => ∃ rest, n.1 = k :: rest
+  | .ok c => n = ([], c)
+
+mutual
+theorem old_new (sup : String → Bool) : ∀ e : AExpr, agrees (oldAnnVisit sup e) (annVisit sup e)
+  | .name c => by by_cases hs : sup "Name" = true <;> simp [oldAnnVisit, annVisit, hs, agrees]
+  | .const => by by_cases hs : sup "Constant" = true <;> simp [oldAnnVisit, annVisit, hs, agrees]
+  | .attr v c => by
+    by_cases hs : sup "Attribute" = true
+    · have iv := old_new sup v
+      rcases Res.cases' (oldAnnVisit sup v) with ⟨k, hk⟩ | ⟨c', hk⟩ <;> rw [hk] at iv <;> simp only [agrees] at iv
+      · obtain ⟨rest, hr⟩ := iv
+        simp [oldAnnVisit, annVisit, hs, hk, agrees, hr]
+      · simp [oldAnnVisit, annVisit, hs, hk, agrees, iv]
+    · simp [oldAnnVisit, annVisit, hs, agrees]
+  | .sub v s => by
+    by_cases hs : sup "Subscript" = true
+    · have iv := old_new sup v
+      have is_ := old_new sup s
+      rcases Res.cases' (oldAnnVisit sup v) with ⟨k, hk⟩ | ⟨c', hk⟩ <;> rw [hk] at iv <;> simp only [agrees] at iv
+      · obtain ⟨rest, hr⟩ := iv
+        simp [oldAnnVisit, annVisit, hs, hk, agrees, hr]
+      · rcases Res.cases' (oldAnnVisit sup s) with ⟨k, hk2⟩ | ⟨c2, hk2⟩ <;> rw [hk2] at is_ <;> simp only [agrees] at is_
+        · obtain ⟨rest, hr⟩ := is_
+          simp [oldAnnVisit, annVisit, hs, hk, hk2, agrees, iv, hr]
+        · simp [oldAnnVisit, annVisit, hs, hk, hk2, agrees, iv, is_]
+    · simp [oldAnnVisit, annVisit, hs, agrees]
+  | .tuple es => by
+    by_cases hs : sup "Tuple" = true
+    · have il := old_newL sup es
+      cases hl : oldAnnVisitL sup es with
+      | none => rw [hl] at il; simp [oldAnnVisit, annVisit, hs, hl, agrees, il]
+      | some k => rw [hl] at il; obtain ⟨rest, hr⟩ := il; simp [oldAnnVisit, annVisit, hs, hl, agrees, hr]
+    · simp [oldAnnVisit, annVisit, hs, agrees]
+  | .list es => by
+    by_cases hs : sup "List" = true
+    · have il := old_newL sup es
+      cases hl : oldAnnVisitL sup es with
+      | none => rw [hl] at il; simp [oldAnnVisit, annVisit, hs, hl, agrees, il]
+      | some k => rw [hl] at il; obtain ⟨rest, hr⟩ := il; simp [oldAnnVisit, annVisit, hs, hl, agrees, hr]
+    · simp [oldAnnVisit, annVisit, hs, agrees]
+  | .set es => by
+    by_cases hs : sup "Set" = true
+    · have il := old_newL sup es
+      cases hl : oldAnnVisitL sup es with
+      | none => rw [hl] at il; simp [oldAnnVisit, annVisit, hs, hl, agrees, il]
+      | some k => rw [hl] at il; obtain ⟨rest, hr⟩ := il; simp [oldAnnVisit, annVisit, hs, hl, agrees, hr]
+    · simp [oldAnnVisit, annVisit, hs, agrees]
+  | .dict ks vs => by
+    by_cases hs : sup "Dict" = true
+    · have ik := old_newL sup ks
+      have iv := old_newL sup vs
+      cases hl : oldAnnVisitL sup ks with
+      | some k => rw [hl] at ik; obtain ⟨rest, hr⟩ := ik; simp [oldAnnVisit, annVisit, hs, hl, agrees, hr]
+      | none =>
+        rw [hl] at ik
+        cases hv : oldAnnVisitL sup vs with
+        | none => rw [hv] at iv; simp [oldAnnVisit, annVisit, hs, hl, hv, agrees, ik, iv]
+        | some k => rw [hv] at iv; obtain ⟨rest, hr⟩ := iv; simp [oldAnnVisit, annVisit, hs, hl, hv, agrees, ik, hr]
+    · simp [oldAnnVisit, annVisit, hs, agrees]
+  | .binop b l r => by
+    by_cases hs : sup "BinOp" = true
+    · cases b
+      · simp [oldAnnVisit, annVisit, hs, agrees]
+      · have il := old_new sup l
+        have ir := old_new sup r
+        rcases Res.cases' (oldAnnVisit sup l) with ⟨k, hk⟩ | ⟨c', hk⟩ <;> rw [hk] at il <;> simp only [agrees] at il
+        · obtain ⟨rest, hr⟩ := il
+          simp [oldAnnVisit, annVisit, hs, hk, agrees, hr]
+        · rcases Res.cases' (oldAnnVisit sup r) with ⟨k, hk2⟩ | ⟨c2, hk2⟩ <;> rw [hk2] at ir <;> simp only [agrees] at ir
+          · obtain ⟨rest, hr⟩ := ir
+            simp [oldAnnVisit, annVisit, hs, hk, hk2, agrees, il, hr]
+          · simp [oldAnnVisit, annVisit, hs, hk, hk2, agrees, il, ir]
+    · simp [oldAnnVisit, annVisit, hs, agrees]
+  | .unary b e => by
+    by_cases hs : sup "UnaryOp" = true
+    · cases b
+      · simp [oldAnnVisit, annVisit, hs, agrees]
+      · have ie := old_new sup e
+        rcases Res.cases' (oldAnnVisit sup e) with ⟨k, hk⟩ | ⟨c', hk⟩ <;> rw [hk] at ie <;> simp only [agrees] at ie
+        · obtain ⟨rest, hr⟩ := ie
+          simp [oldAnnVisit, annVisit, hs, hk, agrees, hr]
+        · simp [oldAnnVisit, annVisit, hs, hk, agrees, ie]
+    · simp [oldAnnVisit, annVisit, hs, agrees]
+  | .call f as ks => by
+    by_cases hs : sup "Call" = true
+    · have if_ := old_new sup f
+      have ia := old_newL sup as
+      have ik := old_newL sup ks
+      rcases Res.cases' (oldAnnVisit sup f) with ⟨k, hk⟩ | ⟨c', hk⟩ <;> rw [hk] at if_ <;> simp only [agrees] at if_
+      · obtain ⟨rest, hr⟩ := if_
+        rcases hv : annVisit sup f with ⟨ef, cf⟩
+        rw [hv] at hr; simp at hr; subst hr
+        rcases cf with _ | cf
+        · simp [oldAnnVisit, annVisit, hs, hk, hv, agrees]
+        · cases cf <;> by_cases hke : ks.isEmpty = true <;> simp [oldAnnVisit, annVisit, hs, hk, hv, agrees, hke]
+      · rcases c' with _ | c'
+        · simp [oldAnnVisit, annVisit, hs, hk, if_, agrees]
+        · cases ha : oldAnnVisitL sup as with
+          | some k =>
+            rw [ha] at ia; obtain ⟨rest, hr⟩ := ia
+            cases c' <;> by_cases hke : ks = [] <;> simp [oldAnnVisit, annVisit, hs, hk, if_, ha, agrees, hr, hke]
+          | none =>
+            rw [ha] at ia
+            cases hk2 : oldAnnVisitL sup ks with
+            | some k =>
+              rw [hk2] at ik; obtain ⟨rest, hr⟩ := ik
+              have hne : ks ≠ [] := by intro h0; subst h0; simp [oldAnnVisitL] at hk2
+              cases c' <;> simp [oldAnnVisit, annVisit, hs, hk, if_, ha, hk2, agrees, ia, hr, hne]
+            | none =>
+              rw [hk2] at ik
+              simp only at ia ik
+              cases c' <;> by_cases hke : ks = [] <;>
+                simp [oldAnnVisit, annVisit, hs, hk, if_, ha, hk2, agrees, ia, ik, hke, oldAnnVisitL, annVisitL]
+    · simp [oldAnnVisit, annVisit, hs, agrees]
+  | .other k0 => by by_cases hs : sup k0 = true <;> simp [oldAnnVisit, annVisit, hs, agrees]
+theorem old_newL (sup : String → Bool) : ∀ es : List AExpr,
+    (match oldAnnVisitL sup es with
+     | some k => ∃ rest, annVisitL sup es = k :: rest
+     | none => annVisitL sup es = [])
+  | [] => by simp [oldAnnVisitL, annVisitL]
+  | e :: es => by
+    have ie := old_new sup e
+    have il := old_newL sup es
+    rcases Res.cases' (oldAnnVisit sup e) with ⟨k, hk⟩ | ⟨c', hk⟩ <;> rw [hk] at ie <;> simp only [agrees] at ie
+    · obtain ⟨rest, hr⟩ := ie
+      simp [oldAnnVisitL, annVisitL, hk, hr]
+    · cases hl : oldAnnVisitL sup es with
+      | none => rw [hl] at il; simp [oldAnnVisitL, annVisitL, hk, hl, ie, il]
+      | some k => rw [hl] at il; obtain ⟨rest, hr⟩ := il; simp [oldAnnVisitL, annVisitL, hk, hl, ie, hr]
+end
+
+
+theorem annVisit_clean (sup : String → Bool) (e : AExpr) (h : AExpr.hasUnsupported sup e = false) :
+    ∃ c, annVisit sup e = ([], c) := by
+  obtain ⟨c, hc⟩ := oldAnnVisit_ok sup e h
+  have := old_new sup e
+  rw [hc] at this
+  exact ⟨c, this⟩
 
 /-! ## C. measures on value terms -/
 
